@@ -219,7 +219,7 @@ func c04() []*Ob {
 				}
 				if ids == nil {
 					for _, p := range fn.Params {
-						if strings.HasSuffix(p.Type().String(), "seq.IDSource") {
+						if strings.HasSuffix(TypeStr(p.Type()), "seq.IDSource") {
 							ids = p
 						}
 					}
@@ -249,7 +249,7 @@ func c04() []*Ob {
 							return false
 						}
 						k, ok := bo.Y.(*ssa.Const)
-						return ok && k.Value != nil && strings.HasSuffix(k.Type().String(), "seq.DocPos")
+						return ok && k.Value != nil && strings.HasSuffix(TypeStr(k.Type()), "seq.DocPos")
 					}
 					n := 0
 					for _, ap := range CallsIn(fn, Callee("builtin.append")) {
@@ -276,14 +276,14 @@ func c04() []*Ob {
 							return false
 						}
 						ia, ok := st.Addr.(*ssa.IndexAddr)
-						return ok && ia.X.Type().String() == "[][]byte"
+						return ok && TypeStr(ia.X.Type()) == "[][]byte"
 					}) {
 						st := lf.In.(*ssa.Store)
 						ia := st.Addr.(*ssa.IndexAddr)
 						n++
 						viaMap := DerivesFrom(ia.Index, func(v ssa.Value) bool {
 							l, ok := v.(*ssa.Lookup)
-							return ok && strings.HasPrefix(l.X.Type().String(), "map[")
+							return ok && strings.HasPrefix(TypeStr(l.X.Type()), "map[")
 						})
 						if !viaMap {
 							c.Violation("prov:FetchDocs:position", st.Pos(), "FetchDocs stores a document at a position that does not come from the id->request-position map")
@@ -332,7 +332,7 @@ func c04() []*Ob {
 							return false
 						}
 						ia, ok := st.Addr.(*ssa.IndexAddr)
-						return ok && ia.X.Type().String() == "[][]byte"
+						return ok && TypeStr(ia.X.Type()) == "[][]byte"
 					}) {
 						st := in.(*ssa.Store)
 						ia := st.Addr.(*ssa.IndexAddr)
